@@ -140,7 +140,8 @@ COQ_HDR = ("From Coq Require Import List Bool Arith NArith String.\nFrom V.C05 R
            "Import ListNotations.\n"
            "(* results are printed as binary numbers: printing unary nat literals is slow *)\n"
            "Definition en (l : list (nat*nat)) := map (fun ab => (N.of_nat (fst ab), N.of_nat (snd ab))) l.\n"
-           "Definition enc (r : option report) := match r with\n"
+           "Definition rT := (bool * (list (N*N) * list (N * (list (N*N) * list (N*N))) * (bool * bool * bool)))%type.\n"
+           "Definition enc (r : option report) : rT := match r with\n"
            " | None => (false, (@nil (N*N), @nil (N * (list (N*N) * list (N*N))), (false, false, false)))\n"
            " | Some x => (true, (en (rp_edges x), map (fun r => (N.of_nat (fst r), (en (fst (snd r)), en (snd (snd r))))) (rp_regions x),\n"
            "                     (rp_wf x, rp_disc x, rp_local x))) end.\n")
@@ -150,7 +151,7 @@ def run_model(ctx, seg_list, tag, per=12):
     chunks = [seg_list[i:i + per] for i in range(0, len(seg_list), per)]
     files = {}
     for k, c in enumerate(chunks):
-        files[f"{tag}{k}"] = COQ_HDR + "Definition cases := [\n" + ";\n".join(f"enc (run_report {coq_segs(s)})" for s in c) + "].\nEval vm_compute in cases.\n"
+        files[f"{tag}{k}"] = COQ_HDR + "Definition cases : list rT := [\n" + ";\n".join(f"enc (run_report {coq_segs(s)})" for s in c) + "].\nEval vm_compute in cases.\n"
     outs = ctx.coq_eval_many(files)
     res = []
     for k in range(len(chunks)):
